@@ -582,3 +582,15 @@ M('head-read-first-line-only', ['C14'], RL, "pos = json_loads(f.read().strip())"
 M('callback-none-test-inverted', ['C03'], MQ, "            if frames is None:  # callback could have returned None\n                return None", "            if frames is not None:  # callback could have returned None\n                return None", ['C03.R13'])
 M('callback-evaluates-twice', ['C03'], MQ, "            if callable(frames):\n                frames = frames()\n", "            if callable(frames):\n                frames() \n                frames = frames()\n", ['C03.R13', 'C03.R2'])
 M('callback-filter-topic-always', ['C03'], MQ, "            if self.outs_filter is True:\n                frames = {**frames, '_filter':", "            if True:\n                frames = {**frames, '_filter':", ['C03.R13'])
+M('read-D15-shape', ['C13'], RL, "if (read_idx := self.read_idx + (self.read_file is not None)) >= (nlogfiles", "if (read_idx := self.read_idx + 1) >= (nlogfiles", ['C13.R4'])
+
+# ------------------------------------------------------------------------------------------------------ round 5 seeds
+M('seed5-C08-outputs-timeout-skips-deadline', ['C08'], F, "                if outputs_timeout is not None and (timeout := timeout - (time_ns() - t_start) // 1_000_000) <= 0:\n                    break", "                if outputs_timeout is not None and (timeout := timeout - (time_ns() - t_start) // 1_000_000) <= 0:\n                    return", ['C08.R4'])
+M('seed5-C09-ro-view-stale-jpg', ['C09', 'C10'], FR, "new                   = Frame(image := self.image.copy(), self, self.__shapef[1])\n        image.flags.writeable = False", "new                   = Frame(image := self.__image.view(), self, self.__shapef[1])\n        image.flags.writeable = False", ['C09.R9', 'C10.R3'])
+M('seed5-C13-bin-size-counts-items', ['C13'], RL, "            if isinstance(data, (bytes, bytearray)):\n                size = len(data)\n            else:\n                size = (data := memoryview(data)).nbytes", "            if not isinstance(data, (bytes, bytearray)):\n                data = memoryview(data)\n\n            size = len(data)", ['C13.R6'])
+M('seed5-C17-global-xforms-run-first', ['C17'], UT, "            topic_xforms = {t: adict(topic=t, frame=f, xforms=[]) for t, f in frames.items() if f.has_image}", "            topic_xforms = {t: adict(topic=t, frame=f, xforms=[x for x in xforms if x.topics is None]) for t, f in frames.items() if f.has_image}", ['C17.R7'])
+M('xforms-applied-in-reverse', ['C17'], UT, "        for xform in topic_xform.xforms:", "        for xform in reversed(topic_xform.xforms):", ['C17.R7'])
+M('seed5-C18-facet-update-emits-running', ['C18'], LN, "                if self.filter_model:\n                    self.facets[\"model_name\"] = self.filter_model\n            if job:", "                if self.filter_model:\n                    self.facets[\"model_name\"] = self.filter_model\n                if self._thread is not None:\n                    self._emit_event(RunState.RUNNING)\n            if job:", ['C18.R5'])
+M('seed5-C05-close-resets-shared-id', ['C01', 'C02', 'C05', 'C07'], Z, "                            sender.min_recv_id = MSG_ID_INITIAL  # for ephemeral only", "                            min_recv_id = MSG_ID_INITIAL  # for ephemeral only", ['C01.R10', 'C02.R2', 'C05.R9', 'C07.R4'])
+M('seed5-C06-fast-forward-only-after-first-id', ['C06'], Z, "                self.min_send_id = min_send_id = prev_id + 1\n\n                if msg_id != MSG_ID_INITIAL:\n                    logger.warning(", "                if msg_id != MSG_ID_INITIAL:\n                    self.min_send_id = min_send_id = prev_id + 1\n                    logger.warning(", ['C06.R3'])
+M('seed5-C02-empty-dst-falls-back-to-src', ['C02'], F, "                topics = [tuple([t.strip() or default_topic for t in s.strip().split('>')] * 2)[:2] for s in topics]", "                topics = [tuple([t.strip() or s.strip().split('>')[0].strip() or default_topic for t in s.strip().split('>')] * 2)[:2] for s in topics]", ['C02.R10'])
